@@ -15,8 +15,9 @@ Modelling decisions (each is a representation choice, not a behaviour change):
   truncated `Nat` subtraction is exact.
 * `rangeEncoder.low : uint64` is a `Nat` (< 2^33 always, see `Props/C17.lean`), `pendingExtra : uint64`
   a `Nat` (one increment per output byte; 2^64 is unreachable).
-* `x << k` on `Nat` is written `x * 2^k` (with the `% 2^32` / `% 2^64` truncation where Go truncates):
-  the Lean runtime's `Nat.shiftLeft` always takes the big-number path, the product does not.
+* `x << k` on `Nat` is written `x * 2^k`, and truncation to `uint32` as `&&& 0xFFFFFFFF` (= `% 2^32`):
+  the Lean runtime's `Nat.shiftLeft` always takes the big-number path and literals >= 2^32 are re-parsed
+  at every use, the product and the mask are scalar operations.
 * `crc32.ChecksumIEEE` is `crc32` below (reflected table-driven CRC-32, polynomial 0xEDB88320).
 * errors are the enum `Err`.
 -/
@@ -110,19 +111,19 @@ def RangeEncoder.shiftLow (e : RangeEncoder) : RangeEncoder :=
     { dst := pushN (e.dst.push (e.pendingHead + 0x00)) 0xFF e.pendingExtra
       pendingHead := (e.low >>> 24).toUInt8
       pendingExtra := 0
-      low := (e.low * 256) % 4294967296
+      low := (e.low * 256) &&& 0xFFFFFFFF
       width := e.width }
-  else if e.low < 0x100000000 then
+  else if e.low ≤ 0xFFFFFFFF then   -- `rEnc.low < 0x1_0000_0000`
     { dst := e.dst
       pendingHead := e.pendingHead
       pendingExtra := e.pendingExtra + 1
-      low := (e.low * 256) % 4294967296
+      low := (e.low * 256) &&& 0xFFFFFFFF
       width := e.width }
   else
     { dst := pushN (e.dst.push (e.pendingHead + 0x01)) 0x00 e.pendingExtra
       pendingHead := (e.low >>> 24).toUInt8
       pendingExtra := 0
-      low := (e.low * 256) % 4294967296
+      low := (e.low * 256) &&& 0xFFFFFFFF
       width := e.width }
 
 def probBits : Nat := 11
@@ -133,15 +134,15 @@ def adaptShift : Nat := 5
 def probHalf : Nat := 1 <<< (probBits - 1)
 
 /-- `*p += (maxProb - *p) >> adaptShift` -/
-def probUp (p : Nat) : Nat := p + ((maxProb - p) >>> adaptShift)
+@[inline] def probUp (p : Nat) : Nat := p + ((maxProb - p) >>> adaptShift)
 /-- `*p -= (*p - minProb) >> adaptShift` -/
-def probDown (p : Nat) : Nat := p - ((p - minProb) >>> adaptShift)
+@[inline] def probDown (p : Nat) : Nat := p - ((p - minProb) >>> adaptShift)
 
 /-- `func (p *prob) decodeBit(rDec *rangeDecoder)`; returns `none` for `errUnexpectedEOF` (the Go code
     has then already mutated `*p` and `rDec`, but every caller returns at once with `rDec.src`, which
     is empty), else `(bitValue, new *p, new rDec)`. -/
-def decodeBit (p : Nat) (d : RangeDecoder) : Option (Nat × Nat × RangeDecoder) :=
-  let threshold := ((d.width >>> probBits) * p) % 4294967296
+@[inline] def decodeBit (p : Nat) (d : RangeDecoder) : Option (Nat × Nat × RangeDecoder) :=
+  let threshold := ((d.width >>> probBits) * p) &&& 0xFFFFFFFF
   let r : Nat × Nat × Nat × Nat :=   -- bitValue, *p, bits, width
     if d.bits < threshold then (0, probUp p, d.bits, threshold)
     else (1, probDown p, d.bits - threshold, d.width - threshold)
@@ -149,20 +150,20 @@ def decodeBit (p : Nat) (d : RangeDecoder) : Option (Nat × Nat × RangeDecoder)
     match d.src with
     | [] => none
     | s :: rest =>
-      some (r.1, r.2.1, { src := rest, bits := ((r.2.2.1 * 256) % 4294967296) ||| s.toNat,
-                          width := (r.2.2.2 * 256) % 4294967296 })
+      some (r.1, r.2.1, { src := rest, bits := ((r.2.2.1 * 256) &&& 0xFFFFFFFF) ||| s.toNat,
+                          width := (r.2.2.2 * 256) &&& 0xFFFFFFFF })
   else
     some (r.1, r.2.1, { src := d.src, bits := r.2.2.1, width := r.2.2.2 })
 
 /-- `func (p *prob) encodeBit(rEnc *rangeEncoder, bitValue uint32)`; returns the new `*p` and `rEnc`. -/
-def encodeBit (p : Nat) (e : RangeEncoder) (bitValue : Nat) : Nat × RangeEncoder :=
-  let threshold := ((e.width >>> probBits) * p) % 4294967296
+@[inline] def encodeBit (p : Nat) (e : RangeEncoder) (bitValue : Nat) : Nat × RangeEncoder :=
+  let threshold := ((e.width >>> probBits) * p) &&& 0xFFFFFFFF
   let p' := if bitValue = 0 then probUp p else probDown p
   let e1 : RangeEncoder :=
     if bitValue = 0 then { e with width := threshold }
     else { e with low := e.low + threshold, width := e.width - threshold }
   if e1.width < 16777216 then
-    (p', RangeEncoder.shiftLow { e1 with width := (e1.width * 256) % 4294967296 })
+    (p', RangeEncoder.shiftLow { e1 with width := (e1.width * 256) &&& 0xFFFFFFFF })
   else
     (p', e1)
 
@@ -220,7 +221,7 @@ def decodeRawLoop : Nat → Nat → UInt8 → Array Nat → Array Nat → RangeD
         match decodeByte litProbs (litBase pos prev) d1 with
         | none => (dst, [], .unexpectedEOF)
         | some (curr, litProbs', d2) =>
-          decodeRawLoop size ((pos + 1) % 4294967296) curr
+          decodeRawLoop size ((pos + 1) &&& 0xFFFFFFFF) curr
             (posProbs.setIfInBounds (pos &&& pbMask) p') litProbs' d2 (dst.push curr) errUnsupported
 
 /-- `func decodeRaw(dst, src, size, errUnsupported)` -/
@@ -243,7 +244,7 @@ def encodeRawLoop : List UInt8 → Nat → UInt8 → Array Nat → Array Nat →
   | curr :: rest, pos, prev, posProbs, litProbs, e =>
     let r := encodeBit (posProbs.getD (pos &&& pbMask) probHalf) e 0
     let r2 := encodeByte litProbs (litBase pos prev) r.2 curr
-    encodeRawLoop rest ((pos + 1) % 4294967296) curr
+    encodeRawLoop rest ((pos + 1) &&& 0xFFFFFFFF) curr
       (posProbs.setIfInBounds (pos &&& pbMask) r.1) r2.1 r2.2
 
 /-- `for i := 0; i < 5; i++ { rEnc.shiftLow() }` -/
